@@ -29,6 +29,8 @@
  *   MSG <type> <pid> <tid>   feed one uftrace_msg(+uftrace_msg_task) through read_record_mmap -> "OK"
  *   SIGCHLD <pid>     call sigchld_handler with si_pid  -> "OK"
  *   CHECK             check_tid_list()                  -> "CHECK <ret> <child_exited> <finish_received> <pid>:<tid>:<exited> ..."
+ *   RSTART|REND <sid> <tid> <idx>   feed REC_START / REC_END for "/uftrace-<sid as %016x>-<tid>-<idx as %03d>" -> "OK"
+ *   SHL               shmem_list_head                   -> "SHL <sid>:<tid>:<idx> ..."
  *   DROP <m>          drop_pending_forks() on a pipe that is  m=0: empty, writer open;  m=1: empty, no writer;
  *                     m=2: not empty, no writer             -> "DROP <ret> <pid>:<tid>:<exited> ..."
  */
@@ -400,6 +402,28 @@ static int mode_live(char *dir)
 			printf("CHECK %d %d %d", (int)r, (int)child_exited, (int)finish_received);
 			list_for_each_entry(tl, &tid_list_head, list)
 				printf(" %d:%d:%d", tl->pid, tl->tid, (int)tl->exited);
+			printf("\n");
+		}
+		else if (!strcmp(cmd, "RSTART") || !strcmp(cmd, "REND")) {
+			char name[64];
+			struct uftrace_msg msg = { .magic = UFTRACE_MSG_MAGIC,
+						   .type = cmd[1] == 'S' ? UFTRACE_MSG_REC_START : UFTRACE_MSG_REC_END };
+			snprintf(name, sizeof(name), "/uftrace-%016x-%d-%03d", (unsigned)a, b, c);
+			msg.len = strlen(name);
+			if (write(pfds[1], &msg, sizeof(msg)) < 0 || write(pfds[1], name, msg.len) < 0)
+				return 2;
+			read_record_mmap(pfds[0], dir, 4096);
+			printf("OK\n");
+		}
+		else if (!strcmp(cmd, "SHL")) {
+			struct shmem_list *sl;
+			printf("SHL");
+			list_for_each_entry(sl, &shmem_list_head, list) {
+				unsigned sid = 0;
+				int tid = 0, idx = 0;
+				sscanf(sl->id, "/uftrace-%x-%d-%d", &sid, &tid, &idx);
+				printf(" %u:%d:%d", sid, tid, idx);
+			}
 			printf("\n");
 		}
 		else if (!strcmp(cmd, "DROP")) {
